@@ -25,6 +25,11 @@ type worldState struct {
 	ops   func(w *model.World) []opx
 	check func(w *model.World) []eng.Violation
 	extra []*model.World // further worlds to close (replicas, restored copies)
+	// latent is the tag of the first tagged letter earlier in this history: the
+	// recorded defect it reaches may corrupt hidden state (a stale sorted-index key)
+	// that shows only several letters later; such mismatches carry a second form of the
+	// tag. The same mismatch in a history WITHOUT the tagged letter is reported as usual.
+	latent string
 }
 
 func (s *worldState) Ops() []string {
@@ -63,6 +68,13 @@ func (s *worldState) Apply(i int, check bool) (vs []eng.Violation) {
 	if t := ops[i].tag; t != "" {
 		for k := range vs {
 			vs[k].Witness += " [after " + t + "]"
+		}
+		if s.latent == "" {
+			s.latent = t
+		}
+	} else if s.latent != "" {
+		for k := range vs {
+			vs[k].Witness += " [later in a history containing: " + s.latent + "]"
 		}
 	}
 	return vs
